@@ -169,18 +169,18 @@ func init() {
 			}
 		}
 		var out []exit
-		var alts []jsonAlt
 		if iv.T == nil {
-			alts = []jsonAlt{{st: st}}
-		} else {
-			alts = e.jsonWalk(st, fr, iv.V, iv.T, pos, 0)
+			return retExit(st, TupleV{e.newByteSlice(st, e.constBytes("null")), IfaceV{}})
 		}
-		for _, a := range alts {
-			if a.panicked {
+		for _, a := range e.jsonBuild(st, fr, iv.V, iv.T, pos, 0) {
+			switch {
+			case a.panicked:
 				out = append(out, exit{st: a.st, kind: exitPanic, pmsg: a.pmsg})
-				continue
+			case a.err != nil:
+				out = append(out, exit{st: a.st, kind: exitReturn, val: TupleV{SliceV{Nil: true, Len: c.BV(0, 64)}, a.err}})
+			default:
+				out = append(out, exit{st: a.st, kind: exitReturn, val: TupleV{e.jsonDocBytes(a.st, a.d), IfaceV{}}})
 			}
-			out = append(out, exit{st: a.st, kind: exitReturn, val: TupleV{e.opaqueBytes(a.st), IfaceV{}}})
 		}
 		return out
 	}
@@ -206,6 +206,20 @@ func (e *Engine) jsonUnmarshal(st *State, fr *Frame, data SliceV, target IfaceV,
 		return retExit(st, errV)
 	}
 	et := target.T.Underlying().(*types.Pointer).Elem()
+	if d := e.jsonDocOf(st, data); d != nil {
+		var out []exit
+		for _, a := range e.jsonDecode(st, fr, d, p, et, pos, 0) {
+			switch {
+			case a.panicked:
+				out = append(out, exit{st: a.st, kind: exitPanic, pmsg: a.pmsg})
+			case a.err:
+				out = append(out, exit{st: a.st, kind: exitReturn, val: errV})
+			default:
+				out = append(out, exit{st: a.st, kind: exitReturn, val: IfaceV{}})
+			}
+		}
+		return out
+	}
 	if b, isStr := et.Underlying().(*types.Basic); isStr && b.Info()&types.IsString != 0 {
 		bs := e.bytesOf(st, data)
 		n := len(bs)
